@@ -1,1 +1,253 @@
-//! link diagrams from PD codes (reference side) — see kh.rs
+//! Link diagrams from PD codes, reference side.  Written from the planar-diagram conventions
+//! (KnotTheory): a crossing X[a,b,c,d] lists its four edges counter-clockwise starting from the
+//! incoming under-strand a; the under-strand runs a -> c, the over-strand joins b and d.
+//!
+//!   * 0-smoothing joins (a,b) and (c,d); 1-smoothing joins (a,d) and (b,c)
+//!     (derived: at a positive crossing the over-strand runs d -> b, the oriented smoothing then
+//!     joins the incoming a with the outgoing b and the incoming d with the outgoing c, and the
+//!     oriented smoothing of a positive crossing is its 0-smoothing);
+//!   * a crossing is positive iff its over-strand runs d -> b.
+
+use std::collections::BTreeMap;
+
+pub type Edge = u32;
+
+#[derive(Clone, Debug, PartialEq, Eq)]
+pub struct Crossing {
+    pub e: [Edge; 4],
+    /// Some(b): the crossing is already resolved by the b-smoothing (contributes no cube
+    /// coordinate and no degree shift)
+    pub resolved: Option<u8>,
+}
+
+#[derive(Clone, Debug, PartialEq, Eq)]
+pub struct Diagram {
+    pub xs: Vec<Crossing>,
+}
+
+#[derive(Clone, Debug, PartialEq, Eq)]
+pub enum PdError {
+    /// an edge label does not occur exactly twice
+    BadMultiplicity(Edge, usize),
+    /// the under-strand directions along one component contradict each other
+    InconsistentOrientation,
+}
+
+#[derive(Clone, Debug)]
+pub struct Orientation {
+    /// +1 / -1 per crossing (0 for resolved crossings)
+    pub signs: Vec<i32>,
+    pub n_plus: usize,
+    pub n_minus: usize,
+    /// number of link components
+    pub components: usize,
+    /// some component never passes under a crossing: its orientation is a free choice
+    pub ambiguous: bool,
+    /// edge -> component index
+    pub comp_of: BTreeMap<Edge, usize>,
+    /// edge -> (crossing, slot) the edge points into
+    pub head: BTreeMap<Edge, (usize, usize)>,
+}
+
+impl Diagram {
+    pub fn from_pd(pd: &[[Edge; 4]]) -> Self {
+        Diagram { xs: pd.iter().map(|&e| Crossing { e, resolved: None }).collect() }
+    }
+
+    pub fn edges(&self) -> Vec<Edge> {
+        let mut v: Vec<Edge> = self.xs.iter().flat_map(|x| x.e).collect();
+        v.sort();
+        v.dedup();
+        v
+    }
+
+    pub fn validate(&self) -> Result<(), PdError> {
+        let mut count: BTreeMap<Edge, usize> = BTreeMap::new();
+        for x in &self.xs {
+            for e in x.e {
+                *count.entry(e).or_insert(0) += 1;
+            }
+        }
+        for (e, c) in count {
+            if c != 2 {
+                return Err(PdError::BadMultiplicity(e, c));
+            }
+        }
+        Ok(())
+    }
+
+    pub fn n_unresolved(&self) -> usize {
+        self.xs.iter().filter(|x| x.resolved.is_none()).count()
+    }
+
+    pub fn mirror(&self) -> Diagram {
+        // mirror image: every crossing X[a,b,c,d] becomes X[b,c,d,a]... expressed with the same
+        // edge labels the under-strand of the mirrored crossing is the old over-strand.  Which of
+        // the two rotations keeps "incoming under-strand first" depends on the over direction, so
+        // the mirror needs the orientation.
+        let o = self.orientation().expect("mirror of a valid diagram");
+        Diagram {
+            xs: self.xs.iter().zip(&o.signs).map(|(x, &s)| {
+                let [a, b, c, d] = x.e;
+                let e = match s {
+                    // positive: over runs d -> b; new under-strand d -> b, listing counter-clockwise from d
+                    1 => [d, a, b, c],
+                    // negative: over runs b -> d
+                    -1 => [b, c, d, a],
+                    _ => x.e,
+                };
+                Crossing { e, resolved: x.resolved }
+            }).collect(),
+        }
+    }
+
+    /// The diagram with crossing `k` switched (over <-> under).
+    pub fn switch_crossing(&self, k: usize) -> Diagram {
+        let o = self.orientation().expect("valid diagram");
+        let mut d = self.clone();
+        let [a, b, c, dd] = d.xs[k].e;
+        d.xs[k].e = match o.signs[k] {
+            1 => [dd, a, b, c],
+            -1 => [b, c, dd, a],
+            _ => d.xs[k].e,
+        };
+        d
+    }
+
+    pub fn pd(&self) -> Vec<[Edge; 4]> {
+        self.xs.iter().map(|x| x.e).collect()
+    }
+
+    /// Orient every component by its under-strands (edge at slot 0 points into the crossing, edge
+    /// at slot 2 out of it) and derive the crossing signs.
+    pub fn orientation(&self) -> Result<Orientation, PdError> {
+        self.validate()?;
+        // slots: (crossing index, position)
+        let mut ends: BTreeMap<Edge, Vec<(usize, usize)>> = BTreeMap::new();
+        for (ci, x) in self.xs.iter().enumerate() {
+            for (p, e) in x.e.iter().enumerate() {
+                ends.entry(*e).or_default().push((ci, p));
+            }
+        }
+        // through-pairing at a crossing: unresolved 0<->2, 1<->3; resolved by b: 0-smoothing pairs
+        // (0,1),(2,3), 1-smoothing pairs (0,3),(1,2)
+        let through = |ci: usize, p: usize| -> usize {
+            match self.xs[ci].resolved {
+                None => (p + 2) % 4,
+                Some(0) => [1, 0, 3, 2][p],
+                Some(_) => [3, 2, 1, 0][p],
+            }
+        };
+        // head[e] = Some(slot) when e is known to point INTO that slot
+        let mut head: BTreeMap<Edge, (usize, usize)> = BTreeMap::new();
+        let mut comp_of: BTreeMap<Edge, usize> = BTreeMap::new();
+        let mut ambiguous = false;
+        let mut components = 0;
+        for &start in ends.keys() {
+            if comp_of.contains_key(&start) {
+                continue;
+            }
+            // walk the component from `start`, leaving through its first listed end
+            let mut walk: Vec<(Edge, (usize, usize), (usize, usize))> = vec![]; // (edge, tail slot, head slot) in walking direction
+            let mut e = start;
+            let mut from = ends[&e][0];
+            loop {
+                let es = &ends[&e];
+                // the other end of e (for an edge whose two ends coincide as slots this cannot happen: slots are distinct)
+                let to = if es[0] == from { es[1] } else { es[0] };
+                walk.push((e, from, to));
+                comp_of.insert(e, components);
+                let out = (to.0, through(to.0, to.1));
+                let next = self.xs[out.0].e[out.1];
+                e = next;
+                from = out;
+                if e == start && from == ends[&start][0] {
+                    break;
+                }
+                if walk.len() > 4 * self.xs.len() + 4 {
+                    return Err(PdError::InconsistentOrientation);
+                }
+            }
+            // votes: does the walking direction agree with the under-strand directions?
+            let (mut agree, mut disagree) = (0, 0);
+            for &(_, tail, hd) in &walk {
+                for (slot, is_head) in [(hd, true), (tail, false)] {
+                    if self.xs[slot.0].resolved.is_some() {
+                        continue;
+                    }
+                    match (slot.1, is_head) {
+                        (0, true) | (2, false) => agree += 1,    // enters by slot 0 / leaves by slot 2
+                        (0, false) | (2, true) => disagree += 1,
+                        _ => {}
+                    }
+                }
+            }
+            if agree > 0 && disagree > 0 {
+                return Err(PdError::InconsistentOrientation);
+            }
+            if agree == 0 && disagree == 0 {
+                ambiguous = true;
+            }
+            for &(e, tail, hd) in &walk {
+                head.insert(e, if disagree > 0 { tail } else { hd });
+            }
+            components += 1;
+        }
+        let mut signs = vec![];
+        for (ci, x) in self.xs.iter().enumerate() {
+            if x.resolved.is_some() {
+                signs.push(0);
+                continue;
+            }
+            // over-strand runs d -> b iff edge d points into slot 3
+            let d_in = head[&x.e[3]] == (ci, 3);
+            let b_in = head[&x.e[1]] == (ci, 1);
+            if d_in == b_in {
+                // both ends of the over strand point in (or out): only possible for a kink where the
+                // same edge sits at two slots; resolve by the slot the edge's head is recorded at
+                signs.push(if d_in { 1 } else { -1 });
+            } else {
+                signs.push(if d_in { 1 } else { -1 });
+            }
+        }
+        let n_plus = signs.iter().filter(|&&s| s == 1).count();
+        let n_minus = signs.iter().filter(|&&s| s == -1).count();
+        Ok(Orientation { signs, n_plus, n_minus, components, ambiguous, comp_of, head })
+    }
+
+    /// Circles (as sorted edge sets, ordered by smallest edge) of the complete resolution given by
+    /// `bits` (one bit per *unresolved* crossing, in order).
+    pub fn circles(&self, bits: u64) -> Vec<Vec<Edge>> {
+        let edges = self.edges();
+        let idx: BTreeMap<Edge, usize> = edges.iter().enumerate().map(|(i, e)| (*e, i)).collect();
+        let mut parent: Vec<usize> = (0..edges.len()).collect();
+        fn find(p: &mut Vec<usize>, x: usize) -> usize {
+            let mut r = x;
+            while p[r] != r { r = p[r]; }
+            let mut y = x;
+            while p[y] != r { let n = p[y]; p[y] = r; y = n; }
+            r
+        }
+        let mut k = 0;
+        for x in &self.xs {
+            let b = match x.resolved {
+                Some(b) => b as u64,
+                None => { let b = (bits >> k) & 1; k += 1; b }
+            };
+            let [a, bb, c, d] = x.e;
+            let pairs = if b == 0 { [(a, bb), (c, d)] } else { [(a, d), (bb, c)] };
+            for (u, v) in pairs {
+                let (ru, rv) = (find(&mut parent, idx[&u]), find(&mut parent, idx[&v]));
+                if ru != rv { parent[ru.max(rv)] = ru.min(rv); }
+            }
+        }
+        let mut groups: BTreeMap<usize, Vec<Edge>> = BTreeMap::new();
+        for (i, e) in edges.iter().enumerate() {
+            let r = find(&mut parent, i);
+            groups.entry(r).or_default().push(*e);
+        }
+        let mut cs: Vec<Vec<Edge>> = groups.into_values().collect();
+        cs.sort();
+        cs
+    }
+}
